@@ -153,6 +153,48 @@ theorem aux_crossSingleton_flatten (sv : List Val) (as os : List Batch) (hlen : 
     | none =>
       simp [crossSingletonStaticRun, hv, aux_crossSingleton_none as os (by simpa using hlen) hos]
 
+/-! ### reduce_no_replay and the static-side operators -/
+
+theorem aux_reduceNoReplay_rest (f : Val → Val → Val) (s : Option Val) (os : List Batch) (hos : os.flatten = []) :
+    (reduceNoReplayRun f false s os).flatten = [] := by
+  induction os generalizing s with
+  | nil => simp [reduceNoReplayRun]
+  | cons o os ih =>
+    simp only [List.flatten_cons, List.append_eq_nil_iff] at hos
+    obtain ⟨rfl, h2⟩ := hos
+    simp [reduceNoReplayRun, ih _ h2]
+
+/-- once the bounded side is complete the operator is element-wise in the streaming side -/
+theorem aux_staticSide_rest (g : List Val → List Val → List Val) (hnil : ∀ st, g st [] = [])
+    (happ : ∀ st a b, g st (a ++ b) = g st a ++ g st b) (st : List Val) (as os : List Batch)
+    (hlen : as.length = os.length) (hos : os.flatten = []) :
+    (staticSideRun g st as os).flatten = g st as.flatten := by
+  induction as generalizing os with
+  | nil => cases os <;> simp [staticSideRun, hnil]
+  | cons a as ih =>
+    cases os with
+    | nil => simp at hlen
+    | cons o os =>
+      simp only [List.flatten_cons, List.append_eq_nil_iff] at hos
+      obtain ⟨rfl, h2⟩ := hos
+      simp [staticSideRun, happ, ih os (by simpa using hlen) h2]
+
+theorem aux_staticSide_flatten (g : List Val → List Val → List Val) (hnil : ∀ st, g st [] = [])
+    (happ : ∀ st a b, g st (a ++ b) = g st a ++ g st b) (sb : List Val) (as os : List Batch)
+    (hlen : as.length = (sb :: os).length) (hos : os.flatten = []) :
+    (staticSideRun g [] as (sb :: os)).flatten = g sb as.flatten := by
+  cases as with
+  | nil => simp at hlen
+  | cons a as =>
+    simp [staticSideRun, happ, aux_staticSide_rest g hnil happ sb as os (by simpa using hlen) hos]
+
+theorem aux_gJoinHalf_app (st a b : List Val) : gJoinHalf st (a ++ b) = gJoinHalf st a ++ gJoinHalf st b := by
+  simp [gJoinHalf, joinL, List.flatMap_append]
+
+theorem aux_gJoinHalf_perm (st a b : List Val) (h : a.Perm b) : (gJoinHalf st a).Perm (gJoinHalf st b) := by
+  unfold gJoinHalf joinL
+  exact List.Perm.flatMap_right _ h
+
 /-! ### the machines are the usual list functions -/
 
 theorem aux_enum (n : Nat) (l : List Val) :
